@@ -82,6 +82,8 @@ def positions_ok(files: dict, impl) -> list:
     ds = impl.get("diags", []) if impl["kind"] == "diags" else ([impl] if impl["kind"] == "raised" else [])
     for d in ds:
         f = d.get("file", "")
+        if f in files and isinstance(files[f], dict) and "bytes_hex" in files[f]:
+            files = {**files, f: bytes.fromhex(files[f]["bytes_hex"]).decode("utf-8", errors="replace")}
         if f not in files or not isinstance(files[f], str):
             if d["cls"] in ("InputParsingException",) and f in files:
                 continue
@@ -126,6 +128,19 @@ def run(ctx):
         else:
             text, kind = r.choice(["", "\n", "#", "# only a comment\n", "﻿", "e = enum { a; # trailing\n }"]), "empty-ish"
         todo.append({"files": {"/w/m.djinni": text}, "root": "/w/m.djinni", "stream": stream, "mut": kind})
+    # raw bytes that are not valid UTF-8
+    for i in range(ctx.n(12, 100)):
+        r = random.Random(f"{ctx.seed}/c06/bytes/{i}")
+        raw = bytes(r.choice([0xff, 0xfe, 0xc3, 0x28, 0x80, 0x41, 0x7b, 0x7d, 0x3b, 0x0a, 0x65, 0x3d]) for _ in range(r.choice([1, 4, 20])))
+        todo.append({"files": {"/w/m.djinni": {"bytes_hex": raw.hex()}}, "root": "/w/m.djinni", "stream": "bytes", "mut": "raw-bytes"})
+    # import graphs (cycles, diamonds, '..' spellings across directories) — termination with imports
+    import props.c16 as c16
+    for i in range(ctx.n(60, 600)):
+        r = random.Random(f"{ctx.seed}/c06/imports/{i}")
+        nn = r.choice([2, 3, 3, 4])
+        es = [(a, b) for a in range(nn) for b in range(nn) if r.random() < 0.4]
+        lay = r.choice(c16.LAYOUTS)
+        todo.append({"files": c16.build(nn, es, lay), "root": lay["path"](0), "include_dirs": lay["inc"], "stream": "imports", "mut": lay["name"]})
     # a root file that does not exist
     todo.append({"files": {"/w/other.djinni": "e = enum {}"}, "root": "/w/m.djinni", "stream": "missing-root", "mut": "missing-root"})
 
@@ -135,6 +150,7 @@ def run(ctx):
     for t, (impl, req), m in zip(todo, results, answers):
         files = t["files"]
         text = next(iter(files.values()))
+        text = text if isinstance(text, str) else str(text)
         mo = front.model_outcome(m)
         io = front.canon_outcome(impl) if impl["kind"] != "hang" else ("hang",)
         rule0 = (m["diags"][0]["rule"] if m.get("kind") == "diags" and m["diags"] else "")
